@@ -7,10 +7,14 @@ model (OciRegistry, through RegTrace): spec/OciTestTrace.tla.
 
 Alone:  python3 checks/ocitest_stage.py quick|thorough     (or: --replay <file>)"""
 import concurrent.futures as cf
+import contextlib
 import json
 import os
 import random
+import shutil
 import sys
+import tempfile
+import time
 
 HERE = os.path.dirname(os.path.abspath(__file__))
 sys.path.insert(0, os.path.join(os.path.dirname(HERE), 'lib'))
@@ -26,9 +30,53 @@ TLC_BLOBS = {'b1': 'blob one', 'b2': '{"two":2}', 'b3': ''}
 
 MC_QUICK = [('OciTestContentMC_live.cfg', 'termination as a liveness property: up to 2 manifests, every subject relation, 2 blob sets, 1 tag'),
             ('OciTestContentMC_subj3.cfg', '3 manifests, every subject relation (none/self/chain/fork/cycle/unknown id/blob id), all blobs or one missing, 3 tag bindings')]
-MC_THOROUGH = [('OciTestContentMC_tiny.cfg', 'up to 2 manifests, every subject relation, every set of 3 blobs, every binding of 2 tags'),
+MC_THOROUGH = [('OciTestContentMC_live.cfg', MC_QUICK[0][1]),
+               ('OciTestContentMC_tiny.cfg', 'up to 2 manifests, every subject relation, every set of 3 blobs, every binding of 2 tags'),
                ('OciTestContentMC_subj4.cfg', '4 manifests, all 2401 subject relations, all blobs or one missing, 3 tag bindings'),
-               ('OciTestContentMC_all3.cfg', 'up to 3 manifests, every subject relation, every set of 3 blobs, every binding of 2 tags')]
+               ('OciTestContentMC_mix3.cfg', '3 manifests, every subject relation, 4 sets of blobs, every binding of 2 tags')]
+# (OciTestContentMC_all3.cfg - up to 3 manifests, every set of blobs, every binding of two tags: 663,812 states - is not part of a tier)
+
+
+def _validate_trace(ctx, module, cfg, trace, consts=None, timeout=900, first_line=2):
+    """vlib.validate_trace with small JVMs (a validation run is single-worker and many run side by side, next to the
+    model-checking runs of this stage) and a retry when TLC gives no verdict at all: on a heavily loaded machine a JVM
+    was seen to die without output (same wrapper as checks/c17.py).  Same result shape."""
+    last = ''
+    for attempt in range(3):
+        d = ctx.specdir()
+        with open(trace) as f:
+            hdr = json.loads(f.readline())
+        open(os.path.join(d, 'TraceHdr.tla'), 'w').write(vlib.tlaval.header_module('TraceHdr', hdr))
+        c = vlib.cfg_with(ctx, d, cfg, consts) if consts else cfg
+        jt = tempfile.mkdtemp(prefix='jt-', dir=ctx.work)      # run_tlc's env argument replaces its own JAVA_TOOL_OPTIONS
+        r = vlib.run_tlc(ctx, d, module + '.tla', c, workers=1, timeout=timeout,
+                         env={'TRACE_FILE': os.path.abspath(trace),
+                              'JAVA_TOOL_OPTIONS': (os.environ.get('JAVA_TOOL_OPTIONS', '') + ' -Djava.io.tmpdir=' + jt +
+                                                    ' -Xss64m -Xmx3g -XX:ParallelGCThreads=2 -XX:CICompilerCount=2').strip()})
+        shutil.rmtree(d, ignore_errors=True)
+        shutil.rmtree(jt, ignore_errors=True)
+        out = r['out']
+        if r['ok']:
+            return dict(accepted=True, states=r.get('distinct', 0), generated=r.get('generated', 0))
+        if 'Postcondition' in out and 'is false' in out and 'depth' in r:
+            return dict(accepted=False, line=first_line + r['depth'] - 1, states=r.get('distinct', 0))
+        last = 'rc=%s wall=%.1fs\n%s\n...%s' % (r['rc'], r['wall'], vlib.tlc_errors(out), out[-1500:])
+        if 'Attempted' in out or 'nonexistent' in out or 'Parse Error' in out or 'semantic' in out.lower() or 'StackOverflow' in out:
+            break          # deterministic: the specification cannot evaluate this trace
+        ctx.log('trace validation of %s gave no verdict (attempt %d), retrying: rc=%s' % (os.path.basename(trace), attempt + 1, r['rc']))
+        time.sleep(2 + 3 * attempt)
+    raise vlib.Machinery('trace validation %s on %s broke:\n%s' % (module, trace, last))
+
+
+@contextlib.contextmanager
+def _small_jvms():
+    """judge_traces / classify look validate_trace up in vlib: swapped for the duration of this stage only."""
+    saved = vlib.validate_trace
+    vlib.validate_trace = _validate_trace
+    try:
+        yield
+    finally:
+        vlib.validate_trace = saved
 
 
 def _obj(x):
@@ -53,7 +101,7 @@ def export_cases(ctx, quick, badblobs):
         # the model's outcome "panic": a manifest that can be computed names a blob the content lacks
         conts = [c for c in conts if c['outcome'] != 'panic']
     rnd = random.Random(ctx.seed)
-    want = 160 if quick else 6000
+    want = 160 if quick else 20000
     if len(conts) > want:
         # every outcome class keeps its share; the rest is a seeded sample
         by = {}
@@ -88,9 +136,9 @@ def write_cases(ctx, cases, per):
 def stage(ctx, quick, badblobs=True):
     """badblobs: also contents whose manifests name a config/layer identifier that is not a blob of the content (HEAD
     panics on them: rejected unless KNOWN_FINDINGS.jsonl lists the relaxation OT1_PanicOnUnknownBlob for this property)."""
-    ex = cf.ThreadPoolExecutor(max_workers=4)
+    ex = cf.ThreadPoolExecutor(max_workers=6)
     # 1. the model of the pusher, exhaustively (in the background: TLC uses what the rest leaves idle)
-    mcs = [ex.submit(vlib.model_check, ctx, 'OciTestContentMC.tla', cfg, vlib.NCPU if not quick else 4, 900, what)
+    mcs = [ex.submit(vlib.model_check, ctx, 'OciTestContentMC.tla', cfg, 4 if quick else max(4, vlib.NCPU // 2), 1500, what)
            for cfg, what in (MC_QUICK if quick else MC_THOROUGH)]
     build = ex.submit(vlib.build_harness, ctx)
     # 2. contents chosen by TLC (every small content) and seeded-random larger ones, pushed by the real code
@@ -102,15 +150,15 @@ def stage(ctx, quick, badblobs=True):
         t = os.path.join(td, 'tlc%03d.ndjson' % i)
         vlib.run_harness(ctx, vh, ['ocitest', '-cases', p, '-out', t])
         traces.append(t)
-    nrand = 120 if quick else 4000
-    per = 60 if quick else 250
+    nrand = 120 if quick else 3000
+    per = 80     # per file; the harness keeps the catalogue of a file small (it is one TLA+ expression)
     i = 0
     while nrand > 0:
         t = os.path.join(td, 'rand%03d.ndjson' % i)
-        k = min(per, nrand)
-        vlib.run_harness(ctx, vh, ['ocitest', '-n', str(k), '-seed', str(ctx.seed * 1000 + i), '-out', t] + (['-badblobs'] if badblobs else []))
+        o = vlib.run_harness(ctx, vh, ['ocitest', '-n', str(min(per, nrand)), '-seed', str(ctx.seed * 1000 + i), '-out', t] + (['-badblobs'] if badblobs else []))
         traces.append(t)
-        nrand -= k
+        # the harness stops early when the catalogue of the file is full
+        nrand -= max(1, json.loads(o.strip().splitlines()[-1])['scenarios'])
         i += 1
     per_op = ctx.cov['per_op']
     outcomes = {}
@@ -131,7 +179,8 @@ def stage(ctx, quick, badblobs=True):
         first = json.loads(f.readline())
     ctx.cov['samples'] = list(ctx.cov['samples']) + [dict(ocitest_content=first.get('case'))]
     # 3. TLC validates every recorded push and judges the outcome
-    n = vlib.judge_traces(ctx, MODULE, CFG, traces, strict=STRICT, shard_lines=1500 if quick else 4000, label=LABEL)
+    with _small_jvms():
+        n = vlib.judge_traces(ctx, MODULE, CFG, traces, strict=STRICT, shard_lines=1500 if quick else 4000, label=LABEL)
     for m in mcs:
         m.result()
     ex.shutdown()
@@ -145,7 +194,8 @@ def replay(ctx, path):
     out = os.path.join(ctx.sub('replay'), 'trace.ndjson')
     vlib.run_harness(ctx, vh, ['ocitest', '-replay', path, '-out', out])
     before = len(ctx.violations)
-    vlib.judge_traces(ctx, MODULE, CFG, [out], strict=STRICT, label='replay')
+    with _small_jvms():
+        vlib.judge_traces(ctx, MODULE, CFG, [out], strict=STRICT, label='replay')
     for k in ctx.known:
         print('KNOWN-FINDING: property=%s %s: %s' % (ctx.pid, k['id'], k['what']))
     if len(ctx.violations) > before:
